@@ -370,6 +370,8 @@ func c04RandomRun(rec *vu.Recorder, rng *rand.Rand, steps int) {
 
 func c04Replay(rec *vu.Recorder, script []c04Op) {
 	w := c04NewWorld(rec, script[0].GangOf, script[0].Cfg)
+	owned := map[string]bool{}   // deleted by the informer while the scheduler still owns them
+	through := map[string]bool{} // let through Permit, binding under way
 	for _, o := range script[1:] {
 		if o.Auto {
 			continue // produced by the framework simulation, re-created by rollback()
@@ -383,21 +385,55 @@ func c04Replay(rec *vu.Recorder, script []c04Op) {
 				continue
 			}
 		case "unreserve":
-			if !w.assumed[o.Pod] && !w.bound[o.Pod] && known {
+			if !w.assumed[o.Pod] && !w.bound[o.Pod] && !owned[o.Pod] {
 				continue
 			}
 			w.assumed[o.Pod] = true
+			delete(owned, o.Pod)
+			delete(through, o.Pod)
 		case "postBind":
-			if w.fw[o.Pod] != nil || (!w.assumed[o.Pod] && known) {
+			// only a pod that was let through Permit (and not rolled back since) is bound
+			if !through[o.Pod] || w.fw[o.Pod] != nil {
 				continue
 			}
 			w.assumed[o.Pod] = true
+			delete(owned, o.Pod)
+			delete(through, o.Pod)
 		case "podDelete":
 			if !known {
 				continue
 			}
+		case "podSet":
+			// pods are identified by name: no re-creation while the scheduler still owns the previous incarnation
+			if !known && owned[o.Pod] {
+				continue
+			}
 		}
-		w.rollback(w.exec(o))
+		if o.Op == "podDelete" && w.assumed[o.Pod] {
+			owned[o.Pod] = true // the scheduler still owns the deleted pod: its roll-back (or PostBind) will arrive
+		}
+		wasParked := map[string]bool{}
+		for n := range w.fw {
+			wasParked[n] = true
+		}
+		rej := w.exec(o)
+		if o.Op == "permit" {
+			if w.fw[o.Pod] == nil && w.assumed[o.Pod] {
+				through[o.Pod] = true
+			}
+			for n := range wasParked {
+				if w.fw[n] == nil && w.assumed[n] {
+					through[n] = true // allowed by this release
+				}
+			}
+		}
+		if o.Op == "podSet" && o.Bound {
+			delete(through, o.Pod)
+		}
+		for _, r := range rej {
+			delete(through, r)
+		}
+		w.rollback(rej)
 	}
 }
 
